@@ -1316,6 +1316,8 @@ class Interp(Engine):
     def call(s, f, args, kw, node=None):
         if isinstance(f, Builtin):
             return f.f(args, kw)
+        if isinstance(f, Obj) and '__call__' in s.classes[f.cls]['methods']:
+            return s.call_method(f, '__call__', list(args), dict(kw))
         if isinstance(f, Closure):
             if isinstance(f.fn, ast.Lambda):
                 env = Env(f.env)
@@ -1485,7 +1487,7 @@ class Interp(Engine):
                 return s.ev(last.value.value, env)
             if isinstance(last, ast.For) and len(last.body) == 1 and isinstance(last.body[0], ast.Expr) \
                     and isinstance(last.body[0].value, ast.Yield) and not last.orelse:
-                it = s.ev(last.iter, env)
+                it = s.iterable_of(s.ev(last.iter, env))
                 yexpr = last.body[0].value.value
                 if isinstance(it, SymSeq):
                     def fe(e):
@@ -1546,8 +1548,14 @@ class Interp(Engine):
         else:
             s.exec_block(st.orelse, env)
 
+    def iterable_of(s, it):
+        """objects of repository classes are iterated through their own __iter__"""
+        if isinstance(it, Obj) and '__iter__' in s.classes[it.cls]['methods']:
+            return s.call_method(it, '__iter__', [], {})
+        return it
+
     def ex_For(s, st, env):
-        it = s.ev(st.iter, env)
+        it = s.iterable_of(s.ev(st.iter, env))
         if isinstance(it, SymSeq):
             return s.map_loop(st, it, env)
         broke = False
